@@ -35,6 +35,7 @@ var refusalCandidates = [][]byte{
 	[]byte("\x00"), []byte("\xff\xfe"), []byte("@root|$"), []byte("{{.x}}"), []byte("+"), []byte("#1"), []byte("\t1"),
 	[]byte(strings.Repeat("9", 256)), []byte(strings.Repeat("z", 300)), []byte("1" + strings.Repeat("0", 255)),
 	[]byte("\n1"), []byte(" 1"), []byte("/1"), []byte("(0)"),
+	[]byte(" " + strings.Repeat("x", 250)), []byte(strings.Repeat("*", 300)), []byte("\n" + strings.Repeat("1", 220)), []byte("-" + strings.Repeat("0", 254)),
 }
 
 func runC17(c *core.Ctx) *core.Outcome {
